@@ -30,6 +30,17 @@ mkdir -p $out; cp SEED/patch.diff SEED/seeded_demo.rs SEED/meta.json $out/
 # /repo itself is not disturbed while builder agents are working against it; SEED_ON_REPO=1 applies the patch to /repo
 # itself (git -C /repo apply … ; checks ; git -C /repo checkout -- .) as the brief describes.
 cd /verif
+CHECK=./check
+if [ -n "$SEED_SNAPSHOT" ]; then
+  # run the checks from a snapshot of the COMMITTED /verif with a private copy of the Lean project, so that engineers
+  # editing /verif at the same time cannot disturb the evaluation (and it cannot disturb them)
+  snap=/tmp/seedsnap_$tag; rm -rf $snap; mkdir -p $snap
+  git -C /verif archive HEAD | tar -x -C $snap
+  cp -a /verif/lean/.lake $snap/lean/.lake
+  export VERIF_LEAN=$snap/lean VERIF_WORK=$snap/work
+  CHECK=$snap/check
+  cd $snap
+fi
 if [ -n "$SEED_ON_REPO" ]; then
   git -C /repo apply $out/patch.diff || { echo "patch does not apply to /repo HEAD"; exit 4; }
 else
@@ -38,13 +49,14 @@ else
 fi
 res=""
 for c in $checks; do
-  ./check $c > /tmp/seed_$tag.check_$c 2>&1; rc=$?
+  $CHECK $c > /tmp/seed_$tag.check_$c 2>&1; rc=$?
   v=$(grep -m1 "^VIOLATION" /tmp/seed_$tag.check_$c)
   echo "check $c rc=$rc ${v}"
   tail -1 /tmp/seed_$tag.check_$c
   res="$res $c:rc=$rc"
   if [ -n "$v" ]; then rp=$(echo "$v" | sed 's/.*replay=\([^ ]*\).*/\1/'); [ -f "$rp" ] && cp "$rp" $out/replay_$c.case; fi
 done
+[ -n "$SEED_SNAPSHOT" ] && { cd /verif; rm -rf $snap; unset VERIF_LEAN VERIF_WORK; }
 if [ -n "$SEED_ON_REPO" ]; then git -C /repo checkout -- .; else git -C $wt checkout -q -- src; unset VERIF_REPO; fi
 python3 - <<P
 import json
